@@ -878,22 +878,35 @@ func isDeepCloneFn(f *ssa.Function) bool {
 	return res
 }
 
-// cloneShaped: calls itself and allocates containers with reflect.
+// cloneShaped: calls itself - directly, or through the helpers of its group of pure reflect functions
+// (`deepCopyElems(dst, src)` calling back) - and the group allocates containers with reflect.
 func cloneShaped(f *ssa.Function) bool {
 	if f == nil || f.Blocks == nil || !inModule(funcPkgPath(f)) {
 		return false
 	}
-	self, alloc := false, false
-	eachInstr(f, func(_ *ssa.BasicBlock, _ int, in ssa.Instruction) {
-		if ci := callOf(in); ci != nil && ci.static != nil {
-			if ci.static == f {
-				self = true
-			}
-			if isPkgFunc(ci.static, "reflect") && (ci.static.Name() == "MakeSlice" || ci.static.Name() == "MakeMapWithSize" || ci.static.Name() == "MakeMap") {
-				alloc = true
-			}
+	group := []*ssa.Function{f}
+	if theProg != nil {
+		if ms, ok := theProg.reflectCluster(f); ok {
+			group = ms
 		}
-	})
+	}
+	inGroup := map[*ssa.Function]bool{}
+	for _, g := range group {
+		inGroup[g] = true
+	}
+	self, alloc := false, false
+	for _, g := range group {
+		eachInstr(g, func(_ *ssa.BasicBlock, _ int, in ssa.Instruction) {
+			if ci := callOf(in); ci != nil && ci.static != nil {
+				if ci.static == f {
+					self = true
+				}
+				if isPkgFunc(ci.static, "reflect") && (ci.static.Name() == "MakeSlice" || ci.static.Name() == "MakeMapWithSize" || ci.static.Name() == "MakeMap") {
+					alloc = true
+				}
+			}
+		})
+	}
 	return self && alloc
 }
 
